@@ -480,6 +480,70 @@ func runC13(args []string) int {
 			}
 		}
 	}
+	// ---- adversary: a narrow check among wide ones (single limb, limb width b > n); the witness value is V = x / 2^(b-n)
+	// in the FIELD for a small x, and the decomposition hint answers with V itself: its shifted image V * 2^(b-n) = x is in
+	// the table, V is not
+	for _, mode := range []string{"r1cs", "scs"} {
+		widths := []int{3}
+		for i := 0; i < 40; i++ {
+			widths = append(widths, 64)
+		}
+		tmpl := &rcCircuit{V: make([]frontend.Variable, len(widths)), widths: widths}
+		ccs, err := c13Compile(mode, tmpl)
+		if err != nil {
+			continue
+		}
+		vals := make([]frontend.Variable, len(widths))
+		for i := range vals {
+			vals[i] = 5
+		}
+		// first pass: learn the limb width from the honest hint calls
+		base := 0
+		learn := func(q *big.Int, in, out []*big.Int) error {
+			base = int(in[1].Int64())
+			return rangecheck.DecomposeHint(q, in, out)
+		}
+		w0, _ := frontend.NewWitness(&rcCircuit{V: vals, widths: widths}, bnQ)
+		SolveCapture(ccs, w0, 1, solver.OverrideHint(decompID, learn))
+		if base <= 3 {
+			rep.Count("rc-forge:field-division:not-applicable")
+			continue
+		}
+		inv := new(big.Int).ModInverse(pow2(base-3), bnQ)
+		V := new(big.Int).Mul(big.NewInt(5), inv)
+		V.Mod(V, bnQ)
+		vals[0] = V
+		w, _ := frontend.NewWitness(&rcCircuit{V: vals, widths: widths}, bnQ)
+		forgedDecomp := func(q *big.Int, in, out []*big.Int) error {
+			if in[2].Cmp(V) == 0 {
+				for i := range out {
+					out[i].SetInt64(0)
+				}
+				out[0].Set(V)
+				return nil
+			}
+			return rangecheck.DecomposeHint(q, in, out)
+		}
+		lenient := func(q *big.Int, in, out []*big.Int) error {
+			nbTable := int(in[0].Int64())
+			for i := range out {
+				out[i].SetInt64(0)
+			}
+			for _, x := range in[2+nbTable:] {
+				if x.IsInt64() && x.Int64() >= 0 && x.Int64() < int64(nbTable) {
+					out[x.Int64()].Add(out[x.Int64()], big.NewInt(1))
+				}
+			}
+			return nil
+		}
+		obs := SolveCapture(ccs, w, 1, solver.OverrideHint(decompID, forgedDecomp), solver.OverrideHint(countID, lenient))
+		rep.Eval("rc-forge|field-division|"+mode, true)
+		rep.Count("rc-forge:field-division:" + obs.Class)
+		if obs.Class == "ok" {
+			rep.Fail("c13:forged-accepted:rangecheck:field-division:"+mode, fmt.Sprintf("a 3-bit check (limb width %d) accepts V = 5 / 2^%d mod r with the limb V itself: only its shifted image is looked up", base, base-3),
+				c13Desc{Kind: "rangecheck-forge", Mode: mode, Widths: widths[:2], Values: []*big.Int{V}, Detail: "field-division"})
+		}
+	}
 	// ---- lookups
 	sizes := []int{1, 2, 3, 7, 8, 9, 33}
 	if o.Thorough() {
